@@ -1865,6 +1865,47 @@ func modeUUID(n int) {
 		emitPair("size-sweep", val{n: mustNode("/"+fill(x-1, x), fill(99, x)+"A")}, val{n: mustNode("/"+fill(x-1, x), fill(99, x)+"B")})
 		emitPair("size-sweep", val{n: mustNode("/"+fill(99, x), fill(x-1, x)+"A")}, val{n: mustNode("/"+fill(99, x), fill(x-1, x)+"B")})
 	}
+	// text and blob literals around 4096, 8192 and 65536 bytes: single values (the model hashes the full pre-image) and
+	// pairs A+"xyz" / A+"xyz"+A[3:] (a block-wise hash that re-feeds leftover bytes makes them collide)
+	sweepLens := []int{4095, 4096, 4097, 4099, 8191, 8193, 65537}
+	if thoroughRun {
+		sweepLens = []int{4093, 4094, 4095, 4096, 4097, 4098, 4099, 8189, 8190, 8191, 8192, 8193, 8194, 8195, 12291, 65533, 65535, 65536, 65537, 65539}
+	}
+	for _, n := range sweepLens {
+		s := fill(n, n)
+		emitUUID("size-sweep", litOf(literal.Text, s))
+		emitUUID("size-sweep", litOf(literal.Blob, []byte(s)))
+	}
+	for _, blk := range []int{4096, 8192, 65536} {
+		a := fill(blk, blk+7)
+		emitPair("size-sweep", litOf(literal.Text, a+"xyz"), litOf(literal.Text, a+"xyz"+a[3:]))
+		emitPair("size-sweep", litOf(literal.Blob, []byte(a+"xyz")), litOf(literal.Blob, []byte(a+"xyz"+a[3:])))
+		emitPair("size-sweep", litOf(literal.Text, a+"x"), litOf(literal.Text, a+"y"))
+		emitPair("size-sweep", litOf(literal.Text, a[:blk-1]+"x"), litOf(literal.Text, a[:blk-1]+"y"))
+	}
+	// blob literals obtained by PARSING (2 KiB each): their UUID() and String() are taken now and again at the end of the
+	// mode, after ~100 KiB more blob text has been parsed
+	var parsedBlobs []val
+	var parsedBlobText []string
+	blobText := func(i, n int) string {
+		var b strings.Builder
+		b.WriteString("\"[")
+		for k := 0; k < n; k++ {
+			if k > 0 {
+				b.WriteByte(' ')
+			}
+			b.WriteString(strconv.Itoa((k*31 + i*17) % 256))
+		}
+		b.WriteString("]\"^^type:blob")
+		return b.String()
+	}
+	for i := 0; i < 8; i++ {
+		if r, v := parseKind("lit", blobText(i, 2048)); r["c"] == "ok" {
+			parsedBlobs = append(parsedBlobs, v)
+			parsedBlobText = append(parsedBlobText, v.str())
+			emitUUID("parsed-blob", v)
+		}
+	}
 	// a blank node named after the printed UUID of another value must not get that value's UUID
 	for _, v := range []val{nodeOf("/a", "bc"), immOf("x"), litOf(literal.Text, "true")} {
 		emitPair("blank-uuid", val{n: mustNode("/_", v.uuid().String())}, v)
@@ -1958,6 +1999,14 @@ func modeUUID(n int) {
 		g.Exist(context.Background(), ts[0])
 		graphLines(g)
 		g.RemoveTriples(context.Background(), ts[:5])
+		// ~100 KiB of blob literals are PARSED (through the literal parser, ParseObject and triple.Parse)
+		for i := 100; i < 150; i++ {
+			parseKind("lit", blobText(i, 2048))
+			if i%10 == 0 {
+				parseKind("obj", blobText(i, 1024))
+				parseKind("triple", "/a<b>\t\"p\"@[]\t"+blobText(i, 512))
+			}
+		}
 		for _, y := range []int{1, 1500, 1822, 1823, 2116, 2117, 2200, 9999} {
 			tmpOf("far", time.Date(y, 1, 1, 0, 0, 0, 1, time.UTC)).uuid()
 			tmpOf("far", time.Date(y, 12, 31, 23, 59, 59, 999999999, time.UTC)).uuid()
@@ -1970,6 +2019,15 @@ func modeUUID(n int) {
 			changed++
 			if len(ex) < 3 {
 				ex = append(ex, J{"vk": e.v.kind(), "v": e.v.obs(), "before": e.u, "after": u})
+			}
+		}
+	}
+	// the early parsed blobs must also still print what they printed
+	for i, v := range parsedBlobs {
+		if v.str() != parsedBlobText[i] {
+			changed++
+			if len(ex) < 3 {
+				ex = append(ex, J{"vk": "lit", "what": "String() of a parsed blob literal changed after other blobs were parsed", "index": i})
 			}
 		}
 	}
@@ -1987,6 +2045,7 @@ func mustNode(t, id string) *node.Node {
 // uuidconc mode (runtime part of C06, "the same on every call, in every goroutine"): the UUIDs of a set of values are
 // computed sequentially first and then re-computed from many goroutines at once; every concurrent answer must equal the
 // sequential one.  Large text / blob literals of distinct content make a buffer shared between calls visible.
+var thoroughRun = false
 var lightRun = false // smaller literals, fewer goroutines and repetitions: for the race-detector build
 
 func modeUUIDConc(n int) {
@@ -2566,6 +2625,7 @@ func main() {
 	tier := flag.String("tier", "quick", "tier")
 	flag.BoolVar(&lightRun, "light", false, "uuidconc: light workload (race detector)")
 	flag.Parse()
+	thoroughRun = *tier == "thorough"
 	rnd = rand.New(rand.NewSource(*seed))
 	defer out.Flush()
 	defer func() {
